@@ -104,6 +104,29 @@ Proof.
 Qed.
 Print Assumptions rollback_restores.
 
+(* ... and the same when the new master stops BY ITSELF, whatever its exit status (3 / 4: its workers cannot boot, the
+   upgrade to a broken release): the status of the re-executed master is of no consequence for its parent, which goes on
+   serving as a single master (and accepts a later USR2: its reexec reference is cleared).  All the theorems above that
+   quantify over event lists include [Halt] events since round 10. *)
+Theorem failed_upgrade_restores : forall c es x code, pidconf c = true ->
+  let s := run c (init c) es in
+  m_alive (get s x) = true -> m_alive (get s (other x)) = true -> m_reexec (get s x) = m_pid (get s (other x)) ->
+  let s' := run c s [Halt (other x) code; NoticeChild x] in
+  get s' x = set_m_reexec (get s x) 0 /\ m_alive (get s' (other x)) = false /\ sockf s' = sockf s /\
+  fsP s' = fsP s /\ fsP2 s' = None.
+Proof.
+  intros c es x code Pc s Al Ao Rx s'. destruct (reach c es Pc) as [P W].
+  destruct (UpgradeThm.failed_upgrade_restores c s x code W (fun _ => P) Al Ao Rx) as [H1 [H2 [H3 H4]]].
+  destruct (H4 Pc). repeat split; auto.
+Qed.
+Print Assumptions failed_upgrade_restores.
+
+Example failed_upgrade_example :
+  let c := mkCfg true true false false 1 in
+  let s := run c (init c) [USR2 A; Halt B 3; NoticeChild A; USR2 A] in
+  m_alive (ma s) = true /\ m_alive (mb s) = true /\ sockf s = true /\ execs s = 2.
+Proof. vm_compute. repeat split. Qed.
+
 (* HUP to the re-executed master while the old one lives: with reload() naming the pid file with ".2" while master_pid != 0
    (reload_names_dot2 = true, read from the source by gen_upgrade.py; repaired in /repo by ecaf6c4) the new master survives the
    HUP holding '<pidfile>.2'; with the rule as it was before the repair (false) the HUP ends it - both readings are proved, the
